@@ -16,7 +16,7 @@ variable {progS : Nat → List Op} {progR : List Op} {s : State}
 /-- C03: only one sender handle ever gets `Ok(())` from `send`. -/
 theorem send_ok_unique (h : Reach progS progR s) {i j : Nat}
     (hi : s.sres i = some .ok) (hj : s.sres j = some .ok) : i = j := by
-  have h4 := (reach_ainv h).i4
+  have h4 := (reach_ainv h).i4b
   have a := h4.resOk i hi
   have b := h4.resOk j hj
   rw [a] at b
@@ -25,7 +25,7 @@ theorem send_ok_unique (h : Reach progS progR s) {i j : Nat}
 /-- C01: the result of a send is `Ok`, or an error carrying exactly the value that was offered. -/
 theorem failed_send_returns_value (h : Reach progS progR s) {i : Nat} {r : Res} (hr : s.sres i = some r) :
     r = .ok ∨ ∃ v, s.sval i = some v ∧ (r = .closedV v ∨ r = .sentV v) :=
-  (reach_ainv h).i4.resErr i r hr
+  (reach_ainv h).i4b.resErr i r hr
 
 /-- C01 / C09 token conservation, sequence form: what went into the slot is, in order, what is still in
 the slot, what the receiver got and what the channel dropped — and it is at most one value. -/
@@ -41,7 +41,7 @@ theorem token_fate (h : Reach progS progR s) {i v : Nat} (hv : s.sval i = some v
     (s.mover = some i → s.moved = [v] ∧ (s.sres i = some .ok ∨ s.sres i = none)) ∧
     (∀ w, s.sres i = some (.closedV w) ∨ s.sres i = some (.sentV w) → w = v ∧ s.mover ≠ some i) := by
   have hI := reach_ainv h
-  have h4 := hI.i4
+  have h4 := hI.i4b
   constructor
   · intro hm
     obtain ⟨w, hw, hmv⟩ := h4.movedV i hm
@@ -77,6 +77,7 @@ theorem received_from_ok_send (h : Reach progS progR s) {v : Nat} (hr : v ∈ s.
     s.received = [v] ∧ ∃ i, s.mover = some i ∧ s.sval i = some v ∧ s.sres i = some .ok := by
   have hI := reach_ainv h
   have h4 := hI.i4
+  have h4b := hI.i4b
   have h3 := hI.i3
   rcases h4.acct with ⟨a, b, c, d⟩ | ⟨w, a, ⟨b, c, d⟩ | ⟨b, c, d⟩ | ⟨b, c, d⟩⟩
   · simp [c] at hr
@@ -89,11 +90,11 @@ theorem received_from_ok_send (h : Reach progS progR s) {v : Nat} (hr : v ∈ s.
       have := h4.movedE.mpr hn
       simp [a] at this
     obtain ⟨i, hi⟩ := Option.ne_none_iff_exists'.mp hm
-    obtain ⟨u, hu, hmv⟩ := h4.movedV i hi
+    obtain ⟨u, hu, hmv⟩ := h4b.movedV i hi
     rw [a] at hmv
     cases hmv
     refine ⟨i, hi, hu, ?_⟩
-    rcases h4.moverRes i hi with h1 | h1
+    rcases h4b.moverRes i hi with h1 | h1
     · exact h1
     · exact absurd b (h3.swapSl (.S i) h1)
   · simp [c] at hr
@@ -128,17 +129,166 @@ theorem teardown_no_leak (h : Reach progS progR s) (hf : s.freed = true) :
 the channel afterwards (every handle created so far is gone). -/
 theorem freed_after_all_handles_gone (h : Reach progS progR s) (hf : s.freed = true) :
     s.gone .R = true ∧ ∀ i, i < s.nextH → s.gone (.S i) = true :=
-  ⟨(reach_ainv h).i1.freedR hf, fun i hi => (reach_ainv h).i1.freedS i hf hi⟩
+  ⟨(reach_ainv h).j2.freedR hf, fun i hi => (reach_ainv h).j2.freedS i hf hi⟩
 
 /-- the two unreachable arms of `try_recv` ("state was SENT but the slot is empty", "CAS SENT→TAKEN
 failed") are dead code: no handle is ever there. -/
 theorem try_recv_corrupt_arms_unreachable (h : Reach progS progR s) (a : Ag) :
     (s.loc a).m ≠ .tStClosed ∧ (s.loc a).m ≠ .tLdState2 ∧ (s.loc a).m ≠ .tLdCount2 :=
-  ⟨(reach_ainv h).i3.dead1 a, (reach_ainv h).i3.dead2 a, (reach_ainv h).i3.dead3 a⟩
+  ⟨(reach_ainv h).i3b.dead1 a, (reach_ainv h).i3b.dead2 a, (reach_ainv h).i3b.dead3 a⟩
 
 /-- mutual exclusion of the two critical sections on the state word: one writer, one taker. -/
 theorem writer_taker_exclusive (h : Reach progS progR s) :
     (s.st = .writing ↔ s.writer ≠ none) ∧ (s.taker ≠ none → s.st = .taken ∧ s.slot ≠ none) :=
   ⟨(reach_ainv h).i2.stW, fun ht => ⟨(reach_ainv h).i3.tkSt ht, (reach_ainv h).i3.tkSl ht⟩⟩
+
+/-! ## (b) C04: all senders gone and nothing sent ⇒ Disconnected; Disconnected is final -/
+
+/-- `sender_count` is exactly the number of sender handles created so far that have not yet run their
+`fetch_sub`; when it is 0 every handle has been closed / dropped / consumed. -/
+theorem sender_count_is_live_handles (h : Reach progS progR s) :
+    s.scount = cntF s.dec s.nextH ∧ (s.scount = 0 → ∀ i, i < s.nextH → s.dec i = true) :=
+  ⟨(reach_ainv h).cnt.cntEq, count_zero_all_dec (reach_ainv h).cnt⟩
+
+/-- C04, PARTIAL (hypothesis: no closed sender handle is ever cloned — `reopened = false`; with such a
+clone the statement is false, see `C04_fails_disconnected_then_value_after_reopen`): a `try_recv` /
+`recv` / poll that was CALLED when nothing had been sent and nothing could be (state CLOSED, or EMPTY with
+`sender_count = 0`, i.e. every sender handle gone) can only return `Disconnected` — it never answers
+Empty, never goes Pending, never parks; and that situation is stable until it returns. -/
+theorem senders_gone_recv_disconnected_partial (h : Reach progS progR s) (hro : s.reopened = false)
+    (hq : (s.loc .R).q = true) :
+    (∀ r, (s.loc .R).m = .ret r → r = .disc) ∧ (s.loc .R).m ≠ .park ∧
+    (s.st = .closed ∨ (s.scount = 0 ∧ s.st = .empty)) := by
+  have he := reach_e7 h hro
+  have hm := he.qMic hro hq
+  refine ⟨?_, ?_, he.qInv hro hq⟩
+  · intro r hr
+    rcases hm with h1 | h1 | h1 | h1 | h1 <;> rw [hr] at h1 <;> cases h1
+    rfl
+  · intro hp
+    rcases hm with h1 | h1 | h1 | h1 | h1 <;> rw [hp] at h1 <;> cases h1
+
+/-- the full C04 clause the code does not satisfy once closed handles are cloned -/
+def disconnected_is_final_statement (progS : Nat → List Op) (progR : List Op) : Prop :=
+  ∀ s, Reach progS progR s → Res.disc ∈ s.results .R →
+    s.closed .R = true ∨ s.st = .closed ∨ s.st = .taken
+
+/-- C04, PARTIAL (hypothesis `discRace = false`: the receiver never answered Disconnected after its CAS
+EMPTY→CLOSED failed — that race needs a clone of a closed handle, witness
+`C04_fails_disconnected_then_value_after_reopen`): once the receiver has been told `Disconnected`, its own
+handle is closed or the state word is CLOSED or TAKEN; it is not inside a claim of the value. -/
+theorem disconnected_is_final_partial (h : Reach progS progR s) (hdr : s.discRace = false)
+    (hd : Res.disc ∈ s.results .R) :
+    (s.closed .R = true ∨ s.st = .closed ∨ s.st = .taken) ∧ (s.loc .R).m ≠ .tCasST ∧ (s.loc .R).m ≠ .tLock :=
+  ⟨(reach_ainv h).d6.dD hdr (.inr hd), (reach_ainv h).d6.dN hdr hd⟩
+
+/-- … and in such a state no step hands a value to the receiver any more: `received` is frozen. -/
+theorem no_value_after_disconnected_partial (h : Reach progS progR s) (hdr : s.discRace = false)
+    (hd : Res.disc ∈ s.results .R) {a : Ag} {s' : State} (hs : step s a .act = some s') :
+    s'.received = s.received := by
+  have hN := (disconnected_is_final_partial h hdr hd).2
+  rcases stepAct_cases hs with h1 | h1 | h1 | h1 | h1 | h1 | h1 | h1
+  · os_split h1 [stepSend]; all_goals rfl
+  · os_split h1 [stepWk]; all_goals rfl
+  · os_split h1 [stepCl]; all_goals rfl
+  · os_split h1 [stepX]; all_goals rfl
+  · os_split h1 [stepPb]; all_goals rfl
+  · by_cases ha : a = .R
+    · subst ha
+      os_split h1 [stepTry]
+      all_goals first | rfl | (exfalso; simp_all)
+    · simp [stepTry, ha] at h1
+  · os_split h1 [stepTry2]; all_goals rfl
+  · os_split h1 [stepPoll]; all_goals rfl
+
+/-! ## (c) C05 / C06: no lost wakeup, safety form -/
+
+/-- a wake is in flight for executor thread `t`: some handle is about to take the waker, has taken the
+executor waker of `t`, is in the tail of `decrement_senders` that ends in `wake`, or is the closer -/
+def WakeInFlight (s : State) (t : Nat) : Prop :=
+  (∃ b, (s.loc b).m = .wkUnpark t) ∨ (∃ b, inPW (s.loc b).m) ∨ s.closer ≠ none
+
+/-- the FULL statement (false on the code: F18) -/
+def no_lost_wakeup_statement (progS : Nat → List Op) (progR : List Op) : Prop :=
+  ∀ s t, Reach progS progR s → (s.loc .R).m = .park → (s.loc .R).k = .recv t → s.tok t = false →
+    ¬ WakeInFlight s t → s.st ≠ .sent ∧ s.st ≠ .closed ∧ s.scount ≠ 0
+
+/-- C05 / C06, PARTIAL (the excluded case is exactly F18: state TAKEN with `sender_count = 0`, see
+`C05_fails_F18_recv_parked_in_TAKEN_never_woken`): if the receiver is parked in `recv()` on thread `t`
+with no park token and no wake is in flight, then its waker is still registered and armed, the state is
+neither SENT nor CLOSED, and if every sender is gone (`sender_count = 0`) the state is TAKEN. -/
+theorem no_lost_wakeup_partial (h : Reach progS progR s) {t : Nat}
+    (hp : (s.loc .R).m = .park) (hk : (s.loc .R).k = .recv t) (ht : s.tok t = false)
+    (hn : ¬ WakeInFlight s t) :
+    s.waker = some (.task t) ∧ s.armed = true ∧ s.st ≠ .sent ∧ s.st ≠ .closed ∧
+    (s.scount = 0 → s.st = .taken) := by
+  have hI := reach_ainv h
+  have hw := hI.w8
+  simp only [WakeInFlight, not_or, not_exists] at hn
+  obtain ⟨hn1, hn2, hn3⟩ := hn
+  have hwk : s.waker = some (.task t) := by
+    rcases hw.w1 t hk (.inr hp) with h1 | h1 | ⟨b, hb⟩
+    · rw [ht] at h1; cases h1
+    · exact h1
+    · exact absurd hb (hn1 b)
+  have hne : s.waker ≠ none := by rw [hwk]; simp
+  have har := hw.w1a hp hne
+  have hcl : s.closed .R = false := hI.j3.recvOpen (by simp [inRecvBody, hp])
+  have hs : s.st ≠ .sent := by
+    intro e
+    obtain ⟨b, hb⟩ := hw.c2s hne (.inl har) e
+    exact hn2 b (by simp [inPW, hb])
+  have hc : s.st ≠ .closed := by
+    intro e
+    rcases hw.c2c hne (.inl har) hcl e with h1 | ⟨b, hb⟩
+    · have := hw.pns (.inl hp); rw [this] at h1; cases h1
+    · exact hn2 b hb
+  refine ⟨hwk, har, hs, hc, ?_⟩
+  intro h0
+  have hst := hI.i2.stW
+  cases hst' : s.st with
+  | empty => exact absurd (hI.cnt.c3 hst' h0) (by simpa using hn3)
+  | writing =>
+    have hwne : s.writer ≠ none := hst.mp hst'
+    obtain ⟨i, hi⟩ := Option.ne_none_iff_exists'.mp hwne
+    have := writer_counts hI.j2 hI.i2 hI.c5 hI.cnt.cntEq i hi
+    omega
+  | sent => exact absurd hst' hs
+  | taken => rfl
+  | closed => exact absurd hst' hc
+
+/-- C06, PARTIAL (same excluded case F18), manual-poll form: while the waker of a poll that answered
+Pending is still registered (so no wake has been recorded for it) and no wake is in flight, the state is
+not SENT, it is CLOSED only if the receiver closed it itself, and EMPTY only with a live sender. -/
+theorem pending_future_no_lost_wakeup_partial (h : Reach progS progR s)
+    (hw : s.waker ≠ none) (har : s.armed = true) (hcl : s.closed .R = false)
+    (hn2 : ∀ b, ¬ inPW (s.loc b).m) (hn3 : s.closer = none) :
+    s.st ≠ .sent ∧ (s.st = .closed → s.rClosedIt = true) ∧ (s.st = .empty → s.scount ≠ 0) := by
+  have hI := reach_ainv h
+  refine ⟨?_, ?_, ?_⟩
+  · intro e
+    obtain ⟨b, hb⟩ := hI.w8.c2s hw (.inl har) e
+    exact hn2 b (by simp [inPW, hb])
+  · intro e
+    rcases hI.w8.c2c hw (.inl har) hcl e with h1 | ⟨b, hb⟩
+    · exact h1
+    · exact absurd hb (hn2 b)
+  · intro e h0
+    exact hI.cnt.c3 e h0 hn3
+
+/-- C06: dropping a pending receive future touches nothing but the harness-level bookkeeping: the state
+word, the slot, the waker registration, all counters, flags, tokens and the whole token history are
+unchanged (so every invariant and theorem above survives it; `ReceiveFuture` has no `Drop`). -/
+theorem dropfut_conserves_tokens {f : Nat} {rest : List Op} {s' : State}
+    (hp : s.prog .R = .dropfut f :: rest) (hs : step s .R .call = some s') :
+    s'.st = s.st ∧ s'.slot = s.slot ∧ s'.waker = s.waker ∧ s'.armed = s.armed ∧ s'.scount = s.scount ∧
+    s'.rdrop = s.rdrop ∧ s'.closed = s.closed ∧ s'.tok = s.tok ∧ s'.moved = s.moved ∧
+    s'.received = s.received ∧ s'.dropped = s.dropped ∧ s'.sres = s.sres ∧ s'.mover = s.mover := by
+  simp only [step, stepCall, hp] at hs
+  split at hs
+  · split at hs
+    · cases hs
+    · simp at hs; subst hs; simp
+  · cases hs
 
 end Fv.Props.OneshotB
